@@ -73,6 +73,8 @@ static Json::Value genC06(Rng& rng) {
   }
   if (rng.chance(0.4))
     addTickDelays(rng, plan, ticks);
+  if (rng.chance(0.25))
+    addPluginCosts(rng, plan);
   plan["clock_off"] = (Json::Int64)rng.range(0, 999999999);
   return plan;
 }
